@@ -404,6 +404,13 @@ def fault_points(ty, cfg, path=(), vtag=""):
     if t in ("slice", "array") and isinstance(cfg, dict) and "a" in cfg:
         if t == "array":
             out.append((path, "array-size", A(cfg["a"] + cfg["a"][:1] if cfg["a"] else [U(1)])))
+            if cfg["a"]:
+                # boundary: the empty list, and a list one short
+                out.append((path, "array-size-empty", A([])))
+                if len(cfg["a"]) > 1:
+                    out.append((path, "array-size-short", A(cfg["a"][:-1])))
+        if t == "slice" and ("required" in vtag or "nonzero" in vtag):
+            out.append((path, "validator-empty-list", A([])))
         for i, x in enumerate(cfg["a"]):
             out += fault_points(ty["e"], x, path + (str(i),))
         if ty["e"]["t"] == "struct" and cfg["a"]:
@@ -411,6 +418,8 @@ def fault_points(ty, cfg, path=(), vtag=""):
         return out
     if t == "map" and isinstance(cfg, dict) and "m" in cfg:
         out.append((path, "not-object", S("oops")))
+        if "required" in vtag or "nonzero" in vtag:
+            out.append((path, "validator-empty-map", M([])))
         for k, x in cfg["m"]:
             out += fault_points(ty["e"], x, path + (k,))
         return out
